@@ -31,12 +31,23 @@ from fractions import Fraction
 
 import numpy as np
 
+import c07_regex
 from common import Ctx, Finding, Outcome, err_class
 
 PROPERTY = "C07"
+# the text grammar (every pattern the xyz / xyz+ / psi4 routes of from_string.py and filter_comments apply) is regenerated from the
+# working tree on every run: harness/c07_regex.py -> lean/QcelVerif/Gen/FromStringRegex.lean
+TRANSLATORS = [c07_regex.gen_fromstring_regex]
 LEAN_TARGETS = ["QcelVerif.Props.C07", "QcelVerif.Lemmas.MolTextJoin", "QcelVerif.Props.C07Text", "QcelVerif.Driver.C07",
                 "QcelVerif.Model.TextToMol", "QcelVerif.Driver.C07b", "QcelVerif.Props.C07E2E", "QcelVerif.Props.C07Hash",
-                "QcelVerif.Lemmas.C07Label", "QcelVerif.Props.C07Label", "QcelVerif.Props.C07Full"]
+                "QcelVerif.Lemmas.C07Label", "QcelVerif.Props.C07Label", "QcelVerif.Props.C07Full",
+                # the text grammar regenerated from the source, the generic engine on it, and M1's recognisers proved equal to it
+                "QcelVerif.Gen.FromStringRegex", "QcelVerif.Model.RegexOps", "QcelVerif.Model.MolTextRe", "QcelVerif.Driver.C07c",
+                "QcelVerif.Lemmas.RegexKit", "QcelVerif.Lemmas.C07ReBridge", "QcelVerif.Lemmas.C07ReShapes", "QcelVerif.Lemmas.C07ReNumber",
+                "QcelVerif.Lemmas.C07ReSep", "QcelVerif.Lemmas.C07ReComment", "QcelVerif.Lemmas.C07ReXyz1strict", "QcelVerif.Lemmas.C07ReXyz1",
+                "QcelVerif.Lemmas.C07ReChgmult", "QcelVerif.Lemmas.C07ReNumberI", "QcelVerif.Lemmas.C07ReAtomShapes", "QcelVerif.Lemmas.C07ReAtomLine",
+                "QcelVerif.Lemmas.C07ReSimpleNuc", "QcelVerif.Lemmas.C07ReNucleus", "QcelVerif.Lemmas.C07ReUnits", "QcelVerif.Lemmas.C07ReKeywords",
+                "QcelVerif.Lemmas.C07ReEfp", "QcelVerif.Lemmas.C07ReFrags", "QcelVerif.Props.C07Regex"]
 DRIVER = "QcelVerif/Driver/C07.lean"
 THEOREMS = [
     ("QcelVerif.MolText.tokens_roundtrip", "splitting the join of non-empty separator-free tokens (any non-empty [\\t ,]+ runs between them) returns the tokens"),
@@ -113,11 +124,58 @@ THEOREMS = [
     ("QcelVerif.TextToMol.vfc_single_fragment_absent", "C05 on a single-fragment xyz+ text: validate_and_fill_chgmult with the totals given and the fragment's charge/multiplicity absent returns what it returns with everything given"),
     ("QcelVerif.TextToMol.read_write_validated_xyzplus", "(a) FULL, xyz+: validated single-fragment record of format-carried atoms without user labels comes back with printed coordinates, unit, total charge/multiplicity, frame flags off - no hlab, no hcm"),
     ("QcelVerif.TextToMol.text_roundtrip_same_hash", "HEADLINE: a validated molecule stored in Bohr without connectivity, of format-carried atoms, written as psi4 text in Bohr with >= 10 decimals (coordinates read back within 1e-10 of stored ones that are not within 0.02e-8 of an 8-decimal rounding boundary) and read back through the whole composed reader is a molecule record - the original with the printed coordinates, still in Bohr - with the SAME C11 hash; every hypothesis explicit (fixed point, RecOk, Carried, float()/int() of the printed numbers, closeness screen, precision, FlOk of the hash's rounding)"),
+    # ---- Props/C07Regex.lean: M1's hand recognisers = the generic regex engine on the ASTs regenerated from the source (every string)
+    ("QcelVerif.C07Regex.number_eq_regex", "NUMBER: re.compile(NUMBER, re.VERBOSE).fullmatch(token), computed by the generic backtracking engine on the AST regenerated from regex.py, succeeds exactly when M1's hand recogniser isNumber accepts the token - every string"),
+    ("QcelVerif.C07Regex.number_extent", "NUMBER inside a line: from any cursor the ways the NUMBER body can match are exactly the splits of the remaining text into a token accepted by isNumber and a rest, only the cursor moving (what the CHGMULT theorems build on)"),
+    ("QcelVerif.C07Regex.number_group_whole", "a full match of NUMBER captures the whole token in group 1 (the text _float is given)"),
+    ("QcelVerif.C07Regex.sep_eq_regex", "SEP: re.split(r'[\\t ,]+', s) by the engine on the regenerated AST = M1's separator splitter splitSep, every string (same fields, empty first/last field kept)"),
+    ("QcelVerif.C07Regex.comment_eq_regex", "filter_comments: re.sub(r'(^|[^\\\\])#.*', r'\\1', s) by the engine on the pattern re-read from util/misc.py = M1's character-by-character comment stripper filterComments, every string (the character before '#' is kept, a backslash protects '#', the comment ends before the newline)"),
+    ("QcelVerif.C07Regex.xyz1strict_eq_regex", "xyz1strict = \\A(\\d+)\\Z: matched exactly when M1's isNatLine accepts the line, group nat = the line"),
+    ("QcelVerif.C07Regex.xyz1_eq_regex", "xyz1 (IGNORECASE): acceptance and the unit as process_bohrang reads the groups uang / ubohr = M1's matchXyz1 (maximal digit run, maximal [\\s,] run, then nothing or bohr | au | ang)"),
+    ("QcelVerif.C07Regex.xyz2_eq_regex", "xyz2 = \\A CHGMULT as a PREFIX match: acceptance and the texts of groups chg / mult of the first way to match (greedy: longest multiplicity digits) = M1's matchXyz2"),
+    ("QcelVerif.C07Regex.cgmp_eq_regex", "cgmp = \\A CHGMULT \\Z: acceptance and the texts of groups chg / mult = M1's line classifier answering .cgmp with the first separator field and the multiplicity"),
+    ("QcelVerif.C07Regex.cgmp_parts", "whenever M1 classifies a line as a CHGMULT line, the number it stores is parseNumber of exactly the text the regex captures as chg"),
+    ("QcelVerif.C07Regex.nucleus_extent", "NUCLEUS inside a line: from the start of a line the nucleus group of atom_cartesian (NUCLEUS under IGNORECASE, groups renumbered, conditional ')' on gh2) takes exactly the prefixes M1's hand recogniser isNucleus accepts - every accepted prefix, backtracking included - and captures the prefix as group nucleus"),
+    ("QcelVerif.C07Regex.atom_eq_regex", "atom_cartesian = \\A(NUCLEUS) SEP (x NUMBER) SEP (y NUMBER) SEP (z NUMBER)\\Z (IGNORECASE): acceptance and the texts of groups nucleus / x / y / z = M1's line classifier answering .atom with the four separator fields, every string"),
+    ("QcelVerif.C07Regex.atomStrict_eq_regex", "atom_cartesian_strict (SIMPLENUCLEUS = 1-3 letters | 1-3 digits): acceptance and group texts = M1's strict atom line (an atom line whose label passes isSimpleNucleus), every string"),
+    ("QcelVerif.C07Regex.atom_parts", "whenever M1 classifies a line as an atom line, its label is the text the regex captures as nucleus and its three numbers are parseNumber of the texts captured as x / y / z"),
+    ("QcelVerif.C07Regex.atom_line_structure", "generic atom line: for ANY nucleus pattern whose extent at line start is a hand predicate P (no separator inside, not empty), \\A(N) SEP NUMBER SEP NUMBER SEP NUMBER\\Z read through its groups = 'exactly four separator fields: P, NUMBER, NUMBER, NUMBER'"),
+    ("QcelVerif.C07Regex.com_eq_regex", "com = \\A(no_com|nocom)\\Z (IGNORECASE) matched exactly when M1's classifier answers .com, every string"),
+    ("QcelVerif.C07Regex.orient_eq_regex", "orient = \\A(no_reorient|noreorient)\\Z (IGNORECASE) matched exactly when M1's classifier answers .orient, every string"),
+    ("QcelVerif.C07Regex.sym_eq_regex", "symmetry = \\Asymmetry[\\s=]+(\\w+)\\Z (IGNORECASE): acceptance and the lower-cased text of group pg = M1's classifier answering .sym pg, every string"),
+    ("QcelVerif.C07Regex.efp_eq_regex", "efpxyzabc = \\A efp SEP (\\w+) (SEP NUMBER) x 6 ENDL \\Z (IGNORECASE): acceptance and the texts of groups efpfile, x, y, z, a, b, c = M1's classifier answering .efp (eight separator fields, optional trailing separator run), every string"),
+    ("QcelVerif.C07Regex.frags_eq_regex", "fragment_marker: re.split(r'^\\s*--\\s*$' [MULTILINE], text) by the engine, each piece cut into its non-empty stripped lines as the callers do, = M1's line view (the non-empty stripped lines split at lines that are exactly '--'), EVERY text - blank lines, surrounding whitespace incl. \\s* running over newlines"),
+    ("QcelVerif.C07Regex.shapes_keywords_efp_marker", "SHAPE obligations [rfl]: fragment_marker = ^ \\s* - - \\s* $ (MULTILINE anchors); efpxyzabc = \\A case-folded 'efp' SEP (1 (2 \\w+)) (SEP NUMBER) for groups 3,5,7,9,11,13, [\\t ,]* $ \\Z"),
+    ("QcelVerif.MolText.fragmentMarker_shape", "shape [rfl]: fragment_marker stage decomposition"),
+    ("QcelVerif.MolText.efpxyzabc_shape", "shape [rfl]: efpxyzabc stage decomposition"),
+    ("QcelVerif.C07Regex.units_eq_regex_partial", "PARTIAL: bohrang (units? [\\s=]+ bohr|au|a.u.|ang|angstrom, IGNORECASE) as process_bohrang reads its groups = M1's classifier answering .units Bohr/Angstrom, for every string WITHOUT a newline (every line of a text); soundness (regex match => M1 answer) holds for every string"),
+    ("QcelVerif.C07Regex.units_newline_counterexample", "the newline hypothesis is needed: on 'units a\\nu\\n' M1's classifyUnits (dots of a.u. = any character) answers Bohr, the regex ('.' excludes newline) does not match - never reachable from a text, whose lines hold no newline"),
+    ("QcelVerif.C07Regex.shapes_nucleus_units", "SHAPE obligations [rfl]: the NUCLEUS group of atom_cartesian = ghost / label / mass / close stages; bohrang = case-folded 'unit' s? [\\s=]+ (unit words) \\Z"),
+    ("QcelVerif.MolText.atomCartesian_shape", "shape [rfl]: atom_cartesian = \\A (group 1 NUCLEUS) SEP (16 NUMBER) SEP (18 NUMBER) SEP (20 NUMBER) \\Z"),
+    ("QcelVerif.MolText.atomCartesianStrict_shape", "shape [rfl]: atom_cartesian_strict = \\A (group 1 SIMPLENUCLEUS) SEP (5 NUMBER) SEP (7 NUMBER) SEP (9 NUMBER) \\Z"),
+    ("QcelVerif.MolText.com_shape", "shape [rfl]: com = \\A group1(n o (_com | com)) \\Z, case-folded"),
+    ("QcelVerif.MolText.orient_shape", "shape [rfl]: orient = \\A group1(n o (_reorient | reorient)) \\Z, case-folded"),
+    ("QcelVerif.MolText.symmetry_shape", "shape [rfl]: symmetry = \\A 'symmetry' [\\s=]+ group1(\\w+) \\Z, case-folded"),
+    ("QcelVerif.MolText.bohrang_shape", "shape [rfl]: bohrang stage decomposition"),
+    ("QcelVerif.C07Regex.anchored_sub_is_match", "re.sub / re.subn / re.search with a pattern that starts with \\A can only match at the start of the line: the substitution is decided by re.match (any pattern, any string)"),
+    ("QcelVerif.C07Regex.anchored_patterns", "every line pattern of from_string.py that the model treats through re.match does start with \\A in the regenerated AST (xyz1strict, xyz1, xyz2, cgmp, atom_cartesian, atom_cartesian_strict, com, orient, bohrang, symmetry, efpxyzabc)"),
+    ("QcelVerif.C07Regex.generated_cannot_match_empty", "the scanned patterns (comment, SEP, fragment_marker) cannot match the empty string and no regenerated AST repeats a nullable body, so neither CPython's empty-match rules nor the engine's fuel ever matter"),
+    ("QcelVerif.C07Regex.shapes", "SHAPE obligations [rfl]: each regenerated AST (NUMBER, SEP, comment, xyz1strict, xyz1, xyz2, CHGMULT, cgmp, atom_cartesian, atom_cartesian_strict) is the stage decomposition its proof walks through - an edit of the pattern in the source that changes CPython's parse tree breaks this"),
+    ("QcelVerif.MolText.number_shape", "shape [rfl]: NUMBER = group 1 of (.num | num. | num), each sign? digits . digits exponent?"),
+    ("QcelVerif.MolText.comment_shape", "shape [rfl]: the comment pattern = group 1 (^ | [^\\\\]) then '#' then greedy [^\\n]*"),
+    ("QcelVerif.MolText.xyz1strict_shape", "shape [rfl]: xyz1strict = \\A group1(\\d+) \\Z"),
+    ("QcelVerif.MolText.xyz1_shape", "shape [rfl]: xyz1 = \\A group1(\\d+) [\\s,]* (unit group)? \\Z with case-folded bohr | au | ang"),
+    ("QcelVerif.MolText.xyz2_shape", "shape [rfl]: xyz2 = \\A CHGMULT"),
+    ("QcelVerif.MolText.cgmp_shape", "shape [rfl]: cgmp = \\A CHGMULT \\Z"),
+    ("QcelVerif.MolText.sep_shape", "shape [rfl]: SEP = greedy [\\t ,]+"),
+    ("QcelVerif.Regex.search_bos", "engine: search with a \\A-anchored pattern = match at the start"),
     ("QcelVerif.TextToMol.deuterium_not_carried", "test [decide +kernel, whole pipeline on the shipped table]: a deuterium record and the plain 1H record are both fixed points of from_arrays, are written as the same text, and that text reads back as the 1H record - isotope information is genuinely not carried"),
 ]
 TRUSTED_BASE = [
     "Lean 4.33 kernel; axioms per theorem audited on every run (subset of propext, Classical.choice, Quot.sound)",
-    "hand-written models Model/MolText.lean: M1 (filter_comments, strip, line filters of from_string.py with hand-written recognisers for NUMBER/NUCLEUS/CHGMULT/keywords) and M2 (xyz/xyz+/psi4 writers of to_string.py as token lines + token-line reader); both tied to /repo by differential correspondence only",
+    "hand-written models Model/MolText.lean: M1 (filter_comments, strip, line filters of from_string.py with hand-written recognisers for NUMBER/NUCLEUS/CHGMULT/keywords) and M2 (xyz/xyz+/psi4 writers of to_string.py as token lines + token-line reader). M1's RECOGNISERS for NUMBER, SEP, the comment pattern, xyz1strict, xyz1, xyz2, cgmp, atom_cartesian (incl. NUCLEUS inside the line), atom_cartesian_strict, com, orient, symmetry and bohrang (lines without newline) are no longer trusted transcriptions: each is proved equal, for every string, to the generic regex engine on the AST regenerated from the source (Props/C07Regex.lean). efpxyzabc and the fragment_marker split (against M1's marker lines) likewise. Still hand-written and tied differentially only: the three-point efp form (efppoints; M1 declares it out of scope), the order in which the line filters apply the recognisers (_filter_xyz, _filter_universals, _filter_libefp, _filter_mints), str.strip / str.split, and M2",
+    "harness/c07_regex.py:gen_fromstring_regex + harness/regex_gen.py (translator): executes regex.py from the working tree, takes pattern and flags of every compiled pattern from the from_string module imported from QCEL_REPO (refuses a module imported from elsewhere), reads filter_comments' inline re.sub (pattern, template '\\1') and the entry point of every use site (re.sub / re.subn / re.split / .match) from the syntax trees - any other shape raises; parses each pattern with CPython's re._parser and re-encodes the parse tree constructor by constructor (IGNORECASE folded into ASCII classes, each class cross-checked on all 128 ASCII characters; unsupported constructs and nullable repetitions refused)",
+    "the generic regex engine Model/RegexEngine.lean (C06's: proved equal to its list-of-successes semantics, fuel-irrelevant) and Model/RegexOps.lean (the left-to-right scan of re.sub / re.split for patterns that cannot match the empty string - proved for the three scanned patterns) stand for CPython's `re`; that they reproduce it is checked three-way on every run (Driver/C07c.lean: X lines on all 19 regenerated patterns in match/search(/fullmatch) mode with spans and every group; L/N/C/F lines CPython | engine | M1 hand recogniser on every generated line, token and text), ASCII only",
     "CPython float formatting '{:.{prec}f}' and float() parsing are parameters (assumed correctly rounded): printed coordinate strings are supplied to the writer model, exact decimal values returned by the reader model are compared with the implementation's doubles via fractions.Fraction",
     "validation after the text layer IS modelled: Model/TextToMol.lean composes M1 with from_input_arrays' field mapping (hand-written from from_string.py:264-290 / from_arrays.py:15-133) and the existing from_arrays model (C04) with the C06 model of reconcile_nucleus over the periodic table regenerated from /repo and the C05 model of validate_and_fill_chgmult; the composition is tied to /repo by differential correspondence (Driver/C07b.lean: every text of streams A/B/C through readMol against from_string(...)['qm'] field by field - geometry and masses as exact rationals of the doubles - and against Molecule.from_data's fields; every writer call through writeMol + readMol)",
     "float(token) is the parameter rd (driver: Nucleus.rd64, round-to-nearest-even binary64, the same function the C04b/C06 drivers use); to_string's unit conversion and '{:.{prec}f}' stay parameters of the writer (printed coordinates supplied)",
@@ -134,6 +192,7 @@ ASSUMPTIONS = [
     "auto-detection (dtype=None) is exercised on writer output and layout rewrites only; psi4+ (zmatrix) is not exercised",
     "texts without any atom: bare from_string returns {} (documented missing_enabled_return_qm='none') - reported under its own finding kind (known finding); the Molecule.from_data route must raise a documented error",
     "efp lines: the model covers the single-line `efp file x y z a b c` form; `efp file` + three point lines is declared out of model scope",
+    "regex tie: the Lean theorems hold for every List Char; CPython's `re` is compared on ASCII texts only (\\d \\w \\s are the ASCII parts of the Unicode categories). Line-level recognisers are compared on lines (no newline inside: they come from str.split('\\n')); patterns of the psi4+ dialect (atom_vcart, atom_zmat1-4, variable) and pubchemre are checked to be used through re.sub only and are not translated",
     "composed reader (readMol): additionally out of scope (answer `oos`, counted) are non-integer charges, charges/multiplicities beyond 1e9 (from_arrays/chgmult models are integer models) and numbers with |x| >= 2^1023; with efp fragments present only the 'qm' part is compared (fix_com/fix_orientation/fix_symmetry forced as from_input_arrays does)",
     "theorem (a) is about records whose atoms are format-carried - default isotope of a shipped element (A = to_A(Z), mass = float(to_mass(Z))), grammar-conformant lower-case user label (empty, '_'+word characters, or digits) - and whose printed coordinates pass the 0.1 closeness screen in the text's unit (known finding C07-tooclose-in-text-units otherwise); isotope-substituted atoms are proved NOT to be carried (written_token_answer_is_default, deuterium_not_carried)",
     "the headline hash theorem is for psi4 text in Bohr of a molecule stored in Bohr, >= 10 printed decimals away from 8-decimal rounding boundaries; Angstrom texts need the Angstrom->Bohr product (one more float operation) and 8-9 decimals the exact margin - both oracle-checked only",
@@ -152,14 +211,24 @@ RULE = (
     "uniformly, with and without a trailing run where the grammar has one, plus random per-gap mixtures; stream B additionally varies the "
     "separator after the multiplicity on the xyz+ title line. The fixed keyword and separator texts go to the model drivers first. "
     "T (token sweep): one-atom validated molecules for EVERY element Z = 1..117 of the shipped table x written-token shapes (real | ghost x label '' | '_'+word "
-    "characters | digits; quick 2, thorough 6 of 10 shapes per element, rotating with element and seed) through the stream-A round-trip oracle (psi4, and xyz+ for label-free atoms) and the RW lines."
+    "characters | digits; quick 2, thorough 6 of 10 shapes per element, rotating with element and seed) through the stream-A round-trip oracle (psi4, and xyz+ for label-free atoms) and the RW lines. "
+    "RX (regex tie): the stripped comment-free lines, their [\\t ,]+ tokens, the raw texts and the comment-free texts of the cases sent to the M1 driver (fixed near-miss lists first: count lines, CHGMULT lines, atom lines, keyword "
+    "spellings, efp lines, number tokens, comment/backslash texts, marker texts; then a seeded sample: quick 3500 lines / 3000 tokens / 1200 + 1200 texts, thorough 10x) through Driver/C07c.lean - every line through all 12 line-level "
+    "recognisers (hand | engine), tokens through NUMBER, texts through filter_comments and the fragment split - and compared with CPython's re applied as the library applies it (re.subn with a callback reading the named groups, "
+    ".match, re.split, filter_comments itself); plus X lines: each of the 19 regenerated patterns on its own kind of input in match / search (/ fullmatch) mode, span and all groups. A case is non-trivial when some recogniser matches."
 )
 LEVEL_TEXT = (
     "proof, partial: the M2 theorems (tokenisation, number/nucleus recognisers accept and decode what the writers print, "
     "read(write r) = project r for xyz/xyz+/psi4 with any number of fragments - on the written lines and on the written TEXT through strip, "
     "filter_comments and the line split -, blank-line/comment/surrounding-whitespace/number-respelling invariance) are proved for all "
-    "records (xyz title text assumed free of '#' and newline); that the real regex-driven from_string equals the hand-written line-filter model M1 is established by differential "
-    "correspondence on generated texts only. END TO END: the whole of from_string - text layer, from_input_arrays field mapping, from_arrays with nucleus "
+    "records (xyz title text assumed free of '#' and newline). REGEX TIE (Props/C07Regex.lean): the text grammar is regenerated from the source on every run (every pattern the xyz/xyz+/psi4 routes "
+    "compile, with the flags and entry points of their use sites, and filter_comments' pattern: Gen/FromStringRegex.lean) and M1's hand recognisers are PROVED equal - same acceptance, same captured texts, every string - "
+    "to the generic backtracking engine on those ASTs for NUMBER (token and extent inside a line), SEP as splitter, the comment pattern with its \\1 template, xyz1strict, xyz1 (incl. unit groups), xyz2 (prefix match, greedy first "
+    "way), cgmp, atom_cartesian (NUCLEUS inside a line with its ghost markers, labels, mass and conditional ')'; groups nucleus/x/y/z), atom_cartesian_strict, com, orient, symmetry and - for lines without a newline, shown necessary - bohrang, "
+    "each resting on a shape obligation by rfl that an edit of the pattern breaks; \\A-anchored re.sub is proved to be re.match. efpxyzabc and the fragment_marker split over the whole text "
+    "(vs M1's marker lines) are proved as well. ALL of this is additionally compared three-way (CPython re | engine on the regenerated AST | M1) on every generated line, token and text; only efppoints (three-point EFP form, outside M1) has no theorem. "
+    "What is NOT proved is the composition of the recognisers by the line "
+    "filters (which recogniser is tried on which line, first-occurrence rules, remnants): the M1 = from_string tie as a whole therefore stays differential, with its leaves now proved or regenerated. END TO END: the whole of from_string - text layer, from_input_arrays field mapping, from_arrays with nucleus "
     "reconciliation (C06 model over the regenerated periodic table), charge/multiplicity completion (C05 model) and fragments - is now one executable Lean function "
     "(readMol) tied to the implementation by correspondence on every generated text (validated record compared field by field, error classes, Molecule.from_data fields); "
     "proved for all records: reading the written text = validating exactly the carried fields; a validated record (fixed point of from_arrays) written as psi4 (one or several fragments) "
@@ -171,9 +240,10 @@ LEVEL_TEXT = (
     "HEADLINE (text_roundtrip_same_hash): psi4 text in Bohr with >= 10 decimals read back is a molecule with the same C11 hash - all hypotheses explicit; "
     "equal 8-decimal float_prep images of the coordinates give equal C11 canonical fields and hash (sufficient printed precision proved for >= 10 decimals, "
     "8-9 decimals and Angstrom texts oracle-checked); the composed reader's error type has only the three documented classes plus explicit out-of-scope/model-gap declarations (a property of the model - "
-    "totality of from_string itself remains oracle-checked on generated texts). Still PARTIAL: M1/readMol = from_string and toTextRec = to_string's view of the record are differential ties."
+    "totality of from_string itself remains oracle-checked on generated texts). Still PARTIAL: M1/readMol = from_string (above the proved recognisers: line-filter control flow, atom/keyword/efp recognisers, strip/split) and toTextRec = to_string's view of the record are differential ties; "
+    "that the Lean engine behaves as CPython's re is differential (ASCII)."
 )
-TECHNIQUE = "Lean 4 proofs about a token/line-level model of writers and reader and about its composition with the from_arrays/C06/C05 models + differential correspondence of the line-filter model against from_string(return_processed=True) and of the composed model against from_string()['qm'] / Molecule.from_data + Python oracle"
+TECHNIQUE = "Lean 4 proofs about a token/line-level model of writers and reader and about its composition with the from_arrays/C06/C05 models + Lean 4 proofs that the model's recognisers equal a generic regex engine on the patterns regenerated from the source + differential correspondence of the line-filter model against from_string(return_processed=True) and of the composed model against from_string()['qm'] / Molecule.from_data + Python oracle"
 
 WS = "\t\n\x0b\x0c\r\x1c\x1d\x1e\x1f "
 ALLOWED = {"MoleculeFormat", "Validation", "NotAnElement"}
@@ -1138,6 +1208,8 @@ def run_models(ctx, out: Outcome, budget):
             out.mismatches.append(Finding("mismatch:M2-writer", case, observed=text, expected=ml[:200], detail="to_string text differs from the Lean writer model"))
     out.evaluations += len(lines)
     run_e2e(ctx, out, cases)
+    # three-way regex tie: CPython re | generic engine on the ASTs regenerated from the source | M1's hand recognisers
+    c07_regex.regex_stream(ctx, out, cases)
 
 
 
@@ -1558,6 +1630,8 @@ def replay(ctx: Ctx, case) -> Outcome:
             closepair_case(ctx, out, case)
         elif st == "seplayout":
             seplayout_case(ctx, out, case["dtype"], case["text"], case["rewritten"])
+        elif st == "regex":
+            c07_regex.regex_replay(ctx, out, case)
         elif st == "m1":
             impl_parse(case["text"], case["dtype"])
             if case["dtype"] in ("xyz", "xyz+", "psi4"):
